@@ -408,7 +408,26 @@ def run_kex(r, rnd, cv, sv):
         kx.getRandomBytes = orig
 
 
+PM_VERSIONS = [(3, 0), (3, 1), (3, 2), (3, 3), (3, 4), (3, 5), (2, 0), (2, 255), (4, 0), (0, 0), (3, 255),
+               (0, 3), (1, 3), (255, 255)]
+
+
+def version_class(v, cv, sv):
+    """where the premaster's version bytes lie relative to the advertised / negotiated version"""
+    if v == cv:
+        return 'pm-version=client'
+    if v == sv:
+        return 'pm-version=negotiated'
+    if sv < v < cv:
+        return 'pm-version-between'
+    if v[0] != 3:
+        return 'pm-version-other-major'
+    return 'pm-version-above' if v > cv else 'pm-version-below'
+
+
 def gen_kex_cases(ctx, quick):
+    """every (client_version, negotiated version) pair -- equal, adjacent and with gaps of 2, 3, 4 -- times every
+    premaster version value of PM_VERSIONS and the length / emptiness classes of the decrypt result"""
     rng = ctx.rng
     rb = lambda m: bytes(rng.randrange(256) for _ in range(m))
     cases = []
@@ -418,17 +437,21 @@ def gen_kex_cases(ctx, quick):
             if sv > cv:
                 continue
             rs = [('none', None), ('empty', b''), ('len-1', rb(1)), ('len-47', bytes(cv) + rb(45)),
-                  ('len-49', bytes(cv) + rb(47)), ('good-client-version', bytes(cv) + rb(46)),
-                  ('good-server-version', bytes(sv) + rb(46)), ('wrong-version', bytes([cv[0], (cv[1] + 1) & 255]) + rb(46)),
-                  ('wrong-major', bytes([2, cv[1]]) + rb(46)), ('swapped-version', bytes([cv[1], cv[0]]) + rb(46)),
+                  ('len-49', bytes(cv) + rb(47)), ('swapped-version', bytes([cv[1], cv[0]]) + rb(46)),
                   ('zero-version', bytes(48)), ('len-2', bytes(cv)), ('len-128', bytes(cv) + rb(126)),
                   ('random-48', rb(48))]
+            for v in PM_VERSIONS:
+                rs.append((version_class(v, cv, sv), bytes(v) + rb(46)))
+                if not quick:
+                    rs.append((version_class(v, cv, sv) + '/len-47', bytes(v) + rb(45)))
             for cls, r in rs:
                 cases.append(dict(cls=cls, r=r, rnd=rb(48), cv=cv, sv=sv))
     return cases
 
 
 def kex_oracle(c):
+    """the property: the decrypted value is used iff it is 48 bytes and starts with the version the client
+    advertised (or, tolerated, exactly the negotiated one); anything else -> the random premaster"""
     r = c['r']
     if r is not None and len(r) == 48 and (tuple(r[:2]) == c['cv'] or tuple(r[:2]) == c['sv']):
         return r
@@ -590,9 +613,15 @@ def run(ctx):
                           % (r.get('excname'), c['cls']), rep)
         elif r['out'] is None or len(r['out']) != 48 or r['out'] != want or r['calls'] != [48]:
             found = True
-            ctx.violation('kex!=spec:%s' % c['cls'], 'processClientKeyExchange returns %r (random calls %r) for decrypt '
-                          'result class %s; the property says %s'
-                          % (None if r['out'] is None else r['out'].hex(), r['calls'], c['cls'], want.hex()), rep)
+            used = ('the DECRYPTED value' if r['out'] == c['r'] else 'the random premaster' if r['out'] == c['rnd']
+                    else repr(None if r['out'] is None else r['out'].hex()))
+            ctx.violation('kex!=spec:%s' % c['cls'],
+                          'processClientKeyExchange uses %s for a ClientKeyExchange whose decrypted premaster is of class %s '
+                          '(premaster version bytes %r, ClientHello.client_version %r, negotiated version %r, %s bytes); '
+                          'the property says %s: a malformed premaster is treated differently from the other malformations'
+                          % (used, c['cls'], None if not c['r'] else tuple(c['r'][:2]), c['cv'], c['sv'],
+                             None if c['r'] is None else len(c['r']),
+                             'the decrypted value' if want == c['r'] else 'the random premaster'), rep)
     ctx.log('kex vs property oracle: %d cases' % len(kcases))
     # ---------------- generated models and Coq spec on the same cases
     if res['model_ok'] and tie_broken is None:
